@@ -509,6 +509,41 @@ def parse_ahb_expression_to_single_requirement_indicator_expressions""")],
     return (german_local.hour, german_local.minute, german_local.second) == (6, 0, 0)""")],
         ["C20"],
     ),
+    (
+        # legitimate: plain `def` evaluation methods run in a worker thread; asyncio.to_thread carries the contextvars context along
+        "ok_sync_evaluation_methods_in_threads",
+        [
+            (RCEV, """        else:
+            result = evaluation_method(evaluatable_data, context)
+        self.logger.debug("The requirement constraint %s evaluated to %s", condition_key, result)""", """        else:
+            result = await asyncio.to_thread(evaluation_method, evaluatable_data, context)
+        self.logger.debug("The requirement constraint %s evaluated to %s", condition_key, result)"""),
+            (FCEV, """        else:
+            result = evaluation_method(text_to_be_evaluated)
+        try:""", """        else:
+            result = await asyncio.to_thread(evaluation_method, text_to_be_evaluated)
+        try:"""),
+        ],
+        ["C04", "C08", "C09", "C12", "C13", "C15", "C16", "C20"],
+    ),
+    (
+        # legitimate: the library yields to the event loop at a few more places (cooperative multitasking courtesy)
+        "ok_extra_yields_inside_the_library",
+        [
+            (RCEV, """        if context is None:
+            context = self._get_default_context()
+        result: ConditionFulfilledValue""", """        if context is None:
+            context = self._get_default_context()
+        await asyncio.sleep(0)
+        result: ConditionFulfilledValue"""),
+            (FCEV, """        text_to_be_evaluated = text_to_be_evaluated_by_format_constraint.get()
+        evaluation_method = self.get_evaluation_method(condition_key)""", """        text_to_be_evaluated = text_to_be_evaluated_by_format_constraint.get()
+        await asyncio.sleep(0)
+        evaluation_method = self.get_evaluation_method(condition_key)
+        await asyncio.sleep(0)"""),
+        ],
+        ["C04", "C08", "C09", "C10", "C12", "C13", "C14", "C15", "C16", "C17"],
+    ),
 ]
 
 
